@@ -403,6 +403,7 @@ func (in *Interp) obligation(fr *frame, cond value, label string, finding string
 		st.Discharged++
 		return
 	}
+	origS := ct.S
 	if d := in.nextDecision(dOblig, label+":"+ct.S); d != nil {
 		if !d.taken {
 			panic(pathEnd{"stop"})
@@ -466,17 +467,25 @@ func (in *Interp) obligation(fr *frame, cond value, label string, finding string
 			in.noteInconclusive(fmt.Sprintf("obligation %s: solver %s (%s)", label, res, in.Solver.LastError))
 		}
 	}
-	// continue under the assumption that the assertion holds
+	// continue under the assumption that the assertion holds (or, for an active known finding,
+	// that it holds outside the finding's signature)
+	if known {
+		ct = in.TC.Or(ct, sigT)
+		if ct.S == "true" {
+			in.pushDecision(decision{kind: dOblig, cond: label + ":" + origS, taken: true})
+			return
+		}
+	}
 	if ct.S == "false" || (violated && !in.feasible(ct)) {
-		in.pushDecision(decision{kind: dOblig, cond: label + ":" + ct.S, taken: false})
+		in.pushDecision(decision{kind: dOblig, cond: label + ":" + origS, taken: false})
 		panic(pathEnd{"stop"})
 	}
 	if violated {
 		in.Solver.Push()
 		in.Solver.Assert(ct)
-		in.pushDecision(decision{kind: dOblig, cond: label + ":" + ct.S, term: ct, taken: true, pushed: true})
+		in.pushDecision(decision{kind: dOblig, cond: label + ":" + origS, term: ct, taken: true, pushed: true})
 	} else {
-		in.pushDecision(decision{kind: dOblig, cond: label + ":" + ct.S, term: ct, taken: true})
+		in.pushDecision(decision{kind: dOblig, cond: label + ":" + origS, term: ct, taken: true})
 	}
 	in.setFact(ct, true)
 }
